@@ -143,7 +143,20 @@ def gen_directives():
                 yield d + tail
                 yield "#ifdef A\n" + d + tail + "\n#endif\n"
         yield '#include "in.sqf"\n'
-    return lambda: itertools.chain.from_iterable(batched(fe, texts()) for fe in ("pp", "preprocess__"))
+        # the built-in macros, used with every kind of argument text (the evaluating ones run SQF)
+        exprs = ["", "nil", "1", "1 +", "call {}", "x = 1", "[] spawn {}", "sleep 1", "throw 1", "if true", '1 + "a"', "[1,2]", "{1}", ")", "(", ",", "1,2",
+                 "__EVAL(1)", "__EVAL(nil)", "__LINE__", 'preprocess__ "__EVAL(1)"', "preprocess__ '__EVAL(preprocess__ ''__EVAL(2)'')'",
+                 "compile '1'", "call compile '__EVAL(1)'", "exit__", "halt", "A", "__COUNTER__"]
+        for m in ("__EVAL", "__EXEC", "__LINE__", "__FILE__", "__COUNTER__", "__COUNTER_RESET__", "__GAME_VER__", "_SQFVM"):
+            for e in exprs:
+                for pre in ("", "#define A __EVAL(2)\n", "x = "):
+                    yield "%s%s(%s)\n" % (pre, m, e)
+            yield m
+            yield m + "("
+            yield "#define %s 1\n%s\n" % (m, m)
+            yield "#undef %s\n%s(1)\n" % (m, m)
+            yield "#ifdef %s\n%s\n#endif\n" % (m, m)
+    return lambda: itertools.chain.from_iterable(batched(fe, texts(), 40) for fe in ("pp", "preprocess__"))
 
 
 def gen_line_directives():
